@@ -130,6 +130,7 @@ type Run struct {
 	ctxSeq    int
 	ctxs      []*ctxObj
 	makeLimit map[string]int64
+	makeEq    map[string]*Term
 
 	asserts     int
 	steps       int
@@ -152,7 +153,7 @@ func (e *Engine) newRun(harness string, prefix []Decision) *Run {
 		atomVC: map[*Value]*VC{}, timerOf: map[*Value]*vtimer{}, access: map[*Value]*accessInfo{},
 		races: map[string]bool{}, raceOn: e.cfg.Race, heapSlots: map[*Value]bool{},
 		reach: map[string]bool{}, nondetCnt: map[string]int{}, choiceCnt: map[string]int{}, choices: map[string]int{},
-		expectMake: map[string]bool{}, makeLimit: map[string]int64{},
+		expectMake: map[string]bool{}, makeLimit: map[string]int64{}, makeEq: map[string]*Term{},
 		fnHit:      map[*ssa.Function]int{}, intrHit: map[string]int{},
 	}
 	r.randPinned = -1
@@ -770,6 +771,10 @@ func (r *Run) checkMake(t *Thread, fr *Frame, lenT, capT *Term) {
 	limit, haveLimit := r.makeLimit[fname]
 	if haveLimit {
 		r.assert(tt.Bin(OpSle, capT, tt.Const(64, uint64(limit))), "alloc_bound:"+fname)
+	}
+	if want, ok := r.makeEq[fname]; ok {
+		r.reach["make:"+fname] = true
+		r.assert(tt.Bin(OpEq, capT, want), "alloc_len:"+fname)
 	}
 	const engineMax = 1 << 16
 	if capT.IsConst() {
